@@ -297,6 +297,72 @@ func c12(repo string, out *fg.Out) error {
 	// the copy-failure clean-up is guarded by migrationID > 0 exactly like the final CompleteMigration;
 	// the model gives `.complete` that guard (no effect when RecordMigration failed).
 
+	// ---- copyFileStreaming: a source-read error must reach the destination writer and the caller.
+	// Expected shape: goroutine A `err := src.ReadTo(..., pw); pw.CloseWithError(err); errCh <- err`,
+	// goroutine B `err := dst.WriteReader(..., pr, ...); pr.CloseWithError(err); errCh <- err`, then a
+	// loop receiving BOTH results and a non-nil return when either is non-nil. (A plain pw.Close()
+	// would look like a clean EOF to WriteReader, which would promote a truncated object.)
+	cs := mig.FuncDecl("Migrator", "copyFileStreaming")
+	if cs == nil {
+		return fmt.Errorf("Migrator.copyFileStreaming not found")
+	}
+	{
+		srcOK, dstOK := false, false
+		ast.Inspect(cs, func(n ast.Node) bool {
+			fl, ok := n.(*ast.FuncLit)
+			if !ok {
+				return true
+			}
+			var errVar, side, pipeEnd string
+			closed, sent := false, false
+			for _, st := range fl.Body.List {
+				switch x := st.(type) {
+				case *ast.AssignStmt:
+					if len(x.Lhs) == 1 && len(x.Rhs) == 1 {
+						if c, ok := x.Rhs[0].(*ast.CallExpr); ok {
+							switch fg.CalleeName(c) {
+							case "ReadTo":
+								if len(c.Args) == 3 {
+									errVar, side, pipeEnd = mig.Text(x.Lhs[0]), "src", mig.Text(c.Args[2])
+								}
+							case "WriteReader":
+								if len(c.Args) == 4 {
+									errVar, side, pipeEnd = mig.Text(x.Lhs[0]), "dst", mig.Text(c.Args[2])
+								}
+							}
+						}
+					}
+				case *ast.ExprStmt:
+					if c, ok := x.X.(*ast.CallExpr); ok && fg.CalleeName(c) == "CloseWithError" && len(c.Args) == 1 {
+						if sel, ok := c.Fun.(*ast.SelectorExpr); ok && mig.Text(sel.X) == pipeEnd && mig.Text(c.Args[0]) == errVar && errVar != "" {
+							closed = true
+						}
+					}
+				case *ast.SendStmt:
+					if mig.Text(x.Value) == errVar && errVar != "" {
+						sent = true
+					}
+				}
+			}
+			if closed && sent && side == "src" {
+				srcOK = true
+			}
+			if closed && sent && side == "dst" {
+				dstOK = true
+			}
+			return true
+		})
+		txt := mig.Text(cs)
+		collects := strings.Contains(txt, "i < 2") && strings.Contains(txt, "<-errCh") &&
+			strings.Contains(txt, "firstErr != nil") && strings.Contains(txt, "return fmt.Errorf(\"streaming copy failed")
+		if !srcOK {
+			return fmt.Errorf("copyFileStreaming: source-read error does not reach the writer (expected `err := src.ReadTo(..., pw); pw.CloseWithError(err); errCh <- err`)")
+		}
+		if !dstOK || !collects {
+			return fmt.Errorf("copyFileStreaming: expected the WriteReader goroutine (pr.CloseWithError(err); errCh <- err) and a loop collecting both errors")
+		}
+	}
+
 	// ---- ReconcileOrphanedFiles
 	rf := mig.FuncDecl("Migrator", "ReconcileOrphanedFiles")
 	if rf == nil {
@@ -496,6 +562,7 @@ func c12(repo string, out *fg.Out) error {
 		js = append(js, map[string]any{"name": s.Name, "act": s.Act, "on_fail": of, "line": s.Line})
 	}
 	fmt.Fprintf(L, "]\n\n")
+	fmt.Fprintf(L, "/-- copyFileStreaming: a source-read error closes the pipe WITH the error and is returned to MigrateFile -/\ndef copySrcErrPropagates : Bool := true\n\n")
 	fmt.Fprintf(L, "/-- ReconcileOrphanedFiles: metadata tier it enumerates, tier it probes with Exists, tier it deletes from -/\n")
 	fmt.Fprintf(L, "def recGuard : Tier := .%s\ndef recProbe : Tier := .%s\ndef recDelete : Tier := .%s\n", recGuard, recProbe, recDel)
 	fmt.Fprintf(L, "def reconcileWindowHours : Nat := %d\n\n", windowNs/3600000000000)
@@ -525,6 +592,7 @@ func c12(repo string, out *fg.Out) error {
 		return r
 	}()
 	out.JSON["scan_tier"] = scanTier
+	out.JSON["copy_src_err_propagates"] = true
 	return nil
 }
 
